@@ -2832,7 +2832,10 @@ class WorkflowGraph(object):
         ))
 
         condition_instances = sorted(
-            [c for c in all_looped_ids if c[1].split('#', 1)[1] == cond_name],
+            # VV: Match the stage too, another DoWhile may loop a component with the same name in a different stage.
+            #     The stages of a DoWhile document are relative to the stage which imports it.
+            [c for c in all_looped_ids if c[1].split('#', 1)[1] == cond_name
+             and int(c[0]) == FlowIR.ParseDataReferenceFull(ref_condition, 0)[0] + import_in_stage],
             # VV: Sort on iteration number from stage<idx:%d>.<iteration-no:%d>#<name:str>
             key=lambda c: int(c[1].split('#', 1)[0]),
             reverse=True
